@@ -26,6 +26,9 @@ type Case struct {
 	// Props is a history of property operations on the columns, applied in order after Skip: the last
 	// setting of a key on a column wins and setting nil removes it, whatever else the column carries.
 	Props []PropOp `json:"props,omitempty"`
+	// Pre > 0: the wrapper is created and rendered once after Pre-1 operations, while the table is still being
+	// built (headers may be replaced afterwards); the checked render goes through that same wrapper.
+	Pre int `json:"pre,omitempty"`
 }
 
 // PropOp: Key "skip" (Val 0 remove, 1 true, 2 false, 3 non-bool), "align" (Val 0 remove, 1..3) or "user" (Val 0 remove, else a value).
@@ -78,10 +81,13 @@ func applyProps(t tabular.Table, c Case, n int) []int {
 }
 
 // effective computes the skipable codes the property history leaves behind (model side).
-func effective(c Case, n int) []int {
+func effective(c Case, n int, base map[int]int) []int {
 	codes := make([]int, n+1)
+	for i := range codes {
+		codes[i] = base[i] // what property steps in between the build steps left behind
+	}
 	for i, code := range c.Skip {
-		if i <= n {
+		if i <= n && code != 0 {
 			codes[i] = code
 		}
 	}
@@ -116,7 +122,7 @@ func expect(c Case, m *gen.Model) (wantErr string, objs [][]pair) {
 	if n == 0 {
 		return "no columns", nil
 	}
-	eff := effective(c, n)
+	eff := effective(c, n, m.SkipCode)
 	code := func(i int) int {
 		if i < len(eff) {
 			return eff[i]
@@ -230,7 +236,16 @@ func parse(out string) ([][]pair, error) {
 }
 
 func CheckCase(c Case) *ev.Violation {
-	t, m := gen.Build(c.Script)
+	t := gen.NewTable(c.Script.Creator)
+	m := &gen.Model{}
+	var early *json.JSONTable
+	for i, op := range c.Script.Ops {
+		if c.Pre > 0 && i == c.Pre-1 {
+			early = json.Wrap(t)
+			early.Render()
+		}
+		m.Step(t, op)
+	}
 	if m.NCols() != m.MaxEver {
 		return nil // replaced, shorter header: column count ambiguous (not generated)
 	}
@@ -239,7 +254,10 @@ func CheckCase(c Case) *ev.Violation {
 	}
 	applyProps(t, c, m.NCols())
 	gen.ScrambleRowsCopy(t) // the caller may do what it likes with the copy it was handed
-	w := json.Wrap(t)
+	w := early
+	if w == nil {
+		w = json.Wrap(t)
+	}
 	out, err := w.Render()
 	wantErr, want := expect(c, m)
 	if wantErr != "" {
